@@ -14,17 +14,50 @@ import (
 
 // Op is one operation of a history. Kind is one of the nine setters ("protocol" ... "hash"), "resolve"
 // (continue on u.Parse(A)), "clone" (continue on u.Clone()), "handle" (obtain a SearchParams handle),
-// "sp.append"/"sp.set" (A=name, B=value), "sp.delete" (A=name), "sp.sort", "sp.sortabs"; N selects the handle.
+// "observe" (call every read-only accessor), "sp.append"/"sp.set" (A=name, B=value), "sp.delete" (A=name), "sp.sort", "sp.sortabs"; N selects the handle.
 type Op struct {
 	Kind string
 	A, B string
 	N    int
 }
 
+// SelfValue as the argument of a setter operation means "the current value of the corresponding getter"
+// (u.SetSearch(u.Search()) ...): a state-dependent value that no fixed menu contains.
+const SelfValue = "\x00<self>"
+
+func currentValue(u *url.Url, k string) string {
+	switch k {
+	case "protocol":
+		return u.Protocol()
+	case "username":
+		return u.Username()
+	case "password":
+		return u.Password()
+	case "host":
+		return u.Host()
+	case "hostname":
+		return u.Hostname()
+	case "port":
+		return u.Port()
+	case "pathname":
+		return u.Pathname()
+	case "search":
+		return u.Search()
+	case "hash":
+		return u.Hash()
+	}
+	panic("unknown setter " + k)
+}
+
 func (o Op) String() string {
+	if o.A == SelfValue {
+		return fmt.Sprintf("%s(<its current value>)", o.Kind)
+	}
 	switch o.Kind {
 	case "clone", "handle", "sp.sort", "sp.sortabs":
 		return fmt.Sprintf("%s[%d]", o.Kind, o.N)
+	case "observe":
+		return "observe(all getters)"
 	case "sp.append", "sp.set":
 		return fmt.Sprintf("%s[%d](%q,%q)", o.Kind, o.N, o.A, o.B)
 	case "sp.delete":
@@ -159,9 +192,13 @@ func (w *World) Apply(o Op) {
 	w.Panic = safely(func() {
 		switch {
 		case isSetter(o.Kind):
-			applyImplSetter(w.U, o.Kind, o.A)
+			v := o.A
+			if v == SelfValue {
+				v = currentValue(w.U, o.Kind)
+			}
+			applyImplSetter(w.U, o.Kind, v)
 			if w.M != nil {
-				w.Cfg.ApplySetter(w.M, o.Kind, o.A)
+				w.Cfg.ApplySetter(w.M, o.Kind, v)
 			}
 			if o.Kind == "search" {
 				w.ML = model.ParseURLEncoded(w.U.Query())
@@ -196,6 +233,14 @@ func (w *World) Apply(o Op) {
 			}
 		case o.Kind == "handle":
 			w.Handles = append(w.Handles, w.U.SearchParams())
+		case o.Kind == "observe":
+			// every read-only accessor once, in the middle of the history: reads must not influence later results
+			// (memoised serializations going stale); on a tree where reads are pure the successor state is identical
+			// and deduplicated at once
+			_ = impl.ObserveFull(w.U)
+			for _, h := range w.Handles {
+				_ = h.String()
+			}
 		case o.Kind == "sp.append":
 			if w.MLCap > 0 && len(w.ML) >= w.MLCap {
 				w.Skipped = true
@@ -345,6 +390,15 @@ var SetterValues = map[string][]string{
 
 var setterOrder = []string{"protocol", "username", "password", "host", "hostname", "port", "pathname", "search", "hash"}
 
+// SelfAlphabet: every setter called with the current value of its own getter.
+func SelfAlphabet() []Op {
+	var ops []Op
+	for _, k := range setterOrder {
+		ops = append(ops, Op{Kind: k, A: SelfValue})
+	}
+	return ops
+}
+
 func SetterAlphabet(maxPerSetter int) []Op {
 	var ops []Op
 	for _, k := range setterOrder {
@@ -493,6 +547,12 @@ func (e *Explore) step(c *fw.Ctx, start string, hist []Op, op Op, seen map[uint6
 	if w.Skipped {
 		return nil
 	}
+	// the state key is taken BEFORE the oracle reads the objects: an accessor that leaves a trace in the object
+	// (a memoised serialization) must not make observed and unobserved states look alike
+	var k uint64
+	if !w.Dead && w.Panic == "" {
+		k = fw.Hash(w.Key())
+	}
 	if f := e.Check(c, start, nh, w); f != nil {
 		if !c.Report(f, func() *fw.Case { return &fw.Case{Kind: e.Kind, S: fw.Strs(start), Ops: opsToQS(nh), N: e.caseN} }) {
 			return nil
@@ -501,7 +561,6 @@ func (e *Explore) step(c *fw.Ctx, start string, hist []Op, op Op, seen map[uint6
 	if w.Dead || w.Panic != "" {
 		return nil
 	}
-	k := fw.Hash(w.Key())
 	if _, ok := seen[k]; ok {
 		return nil
 	}
